@@ -100,6 +100,18 @@ def run(prop, tier, seed, replay=None):
             jobs.append({"kind": "ops", "level": level, "store": store,
                          "threshold": rng.choice([0, 1, 2, None, None]),
                          "ops": ixd.random_ops(rng.randrange(1 << 30), 40 if quick else 70)})
+        # directed histories: flows that must be exercised whatever the generator draws
+        DIRECTED = [
+            # a damaged member seen by index-backed queries, then repaired under its name
+            [["put", "a", "bad"], ["put", "b", "m1"]] + [["query", "fA"]] * 4 + [["query", "hasLoc"]] * 3 +
+            [["put", "a", "m1"]] + [["query", "fA"]] * 2 + [["query", "hasLoc"]] * 2 +
+            [["put", "b", "bad"]] + [["query", "fA"]] * 2 + [["delete", "b"], ["put", "b", "m2"]] +
+            [["query", "fA"], ["query", "fB"], ["query", "hasLoc"]],
+        ]
+        for ops in DIRECTED:
+            for level, store, th in (("store", "tree", 0), ("store", "tree", 1), ("store", "mem", 2),
+                                     ("store", "vdir", 1), ("store", "bare", 0), ("http", "tree", 1)):
+                jobs.append({"kind": "ops", "level": level, "store": store, "threshold": th, "ops": ops})
         # the witness history of every listed (open) finding, re-run as recorded
         for d, e in sorted(devs.items()):
             if e.get("witness"):
